@@ -301,6 +301,8 @@ def judge_addrgroup(case) -> Verdict:
 def addrgroup_case_st(draw, tier):
     platform = draw(st.sampled_from(["ios", "nxos"]))
     n = draw(st.integers(1, 6))
+    if draw(st.integers(0, 14)) == 9:
+        n = draw(st.integers(250, 300))  # more members than small-integer caching reaches
     members = []
     for _ in range(n):
         plen = draw(st.integers(8, 32))
